@@ -331,8 +331,33 @@ BOUNDED = {}     # pid -> [callable(tier, seed) -> dict]
 
 def run_bounded(pid, tier, seed):
     out = []
-    for f in BOUNDED.get(pid, []):
-        out.append(f(tier, seed))
+    for (script, what) in R.BOUNDED.get(pid, []):
+        env = dict(os.environ)
+        repo = os.environ.get('PYVC_REPO', '/repo')
+        env['PYTHONPATH'] = repo + os.pathsep + HERE
+        env['PYVC_TIER'] = tier
+        t0 = time.time()
+        rec = dict(kind='bounded stand-in (not a proof)', script=script, what=what)
+        try:
+            p = subprocess.run(['/venv/bin/python', '-W', 'ignore', os.path.join(HERE, script)],
+                               capture_output=True, text=True, timeout=900, env=env, cwd=repo)
+            last = [l for l in p.stdout.strip().split('\n') if l.startswith('{')]
+            info = json.loads(last[-1]) if last else dict(error=(p.stderr or p.stdout)[-800:])
+        except Exception as e:
+            info = dict(error=str(e))
+        rec.update(info)
+        rec['seconds'] = round(time.time() - t0, 2)
+        if info.get('n_failures'):
+            rdir = os.path.join(os.environ.get('PYVC_EVIDENCE_DIR') or HERE, 'replays', pid)
+            os.makedirs(rdir, exist_ok=True)
+            path = os.path.join(rdir, 'bounded_%s.json' % os.path.basename(script)[:-3])
+            with open(path, 'w') as f:
+                json.dump(dict(property=pid, kind='bounded stand-in', script=script, failures=info.get('failures')), f, indent=1)
+            rec['violation'] = True
+            rec['replay'] = os.path.relpath(path, HERE) if path.startswith(HERE + os.sep) else path
+        elif 'error' in info:
+            rec['error'] = info['error']
+        out.append(rec)
     return out
 
 
